@@ -852,7 +852,7 @@ fn run_traversal(cx: &mut Ctx, st: &LpgStore, l: &Live, sources: &[u64]) {
     as_.sort();
     let mut ns = l.nodes.clone();
     ns.sort();
-    cx.cert("dfs_all", String::new(), format!("c_perm {} {}", g, zlist(&a)), Some(as_ == ns), format!("{:?}", a), None);
+    cx.cert("dfs_all", String::new(), format!("c_perm {} {}", g, zlist(&a)), Some(as_ == ns && a.len() == ns.len()), format!("{:?}", a), Some(("C19-K5", format!("k_dfs_all {}", g))));
 }
 
 fn same_partition(a: &BTreeMap<u64, u64>, b: &BTreeMap<u64, u64>) -> bool {
@@ -1514,12 +1514,7 @@ fn main() {
         };
         let g = gen_spec(&mut rng, profile);
         let mut r2 = rng.fork();
-        let res = catch(std::panic::AssertUnwindSafe(|| {
-            let mut buf = Out::create(Some("/dev/null"));
-            std::mem::swap(&mut buf, &mut out);
-            run_graph(&mut buf, &g, profile, &mut r2, thorough);
-            std::mem::swap(&mut buf, &mut out);
-        }));
+        let res = catch(std::panic::AssertUnwindSafe(|| run_graph(&mut out, &g, profile, &mut r2, thorough)));
         if let Err(m) = res {
             out.emit(&Case { kind: "panic".into(), input: g.show(), oracle: Oracle::Fail, msg: format!("panic: {}", m), nontrivial: true, ..Default::default() });
         }
